@@ -94,6 +94,14 @@ def check_steps(s, sl):
         return [("compose-raise", short_exc(e))]
     if got != exp:
         return [("compose", f"clean_text({s!r}, {list(sl)}) = {got!r}, step by step = {exp!r}")]
+    # the steps parameter is documented as any Iterable: a tuple and a one-shot iterator must behave like the list
+    for kind, arg in (("tuple", tuple(sl)), ("iterator", iter(list(sl))), ("generator", (x for x in list(sl)))):
+        try:
+            got2 = clean_text(s, arg)
+        except Exception as e:  # noqa: BLE001
+            return [("compose-iterable-raise", f"steps as {kind}: {short_exc(e)}")]
+        if got2 != exp:
+            return [("compose-iterable", f"clean_text({s!r}, <{kind} of {list(sl)}>) = {got2!r}, with a list {exp!r}")]
     return []
 
 
